@@ -59,6 +59,14 @@ def do_case(ctx, inp):
     tl = [v.id for v in pnd.boolean_ndarray(np.array(vec, dtype=np.int64), variables=vs).to_list()]
     bi = [int(x) for x in va.boolean_variable_indices.tolist()]
     ii = [int(x) for x in va.integer_variable_indices.tolist()]
+    # the same index sets asked for by name: the documented spellings are the strings "bool" / "int" and the enum members
+    for spell_b, spell_i in (("bool", "int"), (puan.Dtype.BOOL, puan.Dtype.INT), (puan.Dtype("bool"), puan.Dtype("int"))):
+        b2 = [int(x) for x in va.variable_indices(spell_b).tolist()]
+        i2 = [int(x) for x in va.variable_indices(spell_i).tolist()]
+        if b2 != bi or i2 != ii:
+            ctx.case(inp, True, {"variable_indices-by-name"})
+            ctx.fail("variable_indices-by-name-differs", {"spelling": [repr(spell_b), repr(spell_i)], "bool": b2, "int": i2,
+                                                         "boolean_variable_indices": bi, "integer_variable_indices": ii}); return
     row = inp["row"]
     g = pnd.ge_polyhedron(np.array([row], dtype=np.int64), variables=[puan.variable.support_vector_variable()] + vs)
     A, b = g.to_linalg()
